@@ -191,21 +191,22 @@ for name, f in FAM.items():
         def prp(idx, S=srcp, qq=qj): return f['pre'].format(q=qq, **{('c%d' % i): ('(#[trigger] %s[%s])' if i == 0 else '%s[%s]') % (nm, idx) for i, nm in enumerate(S)}) if f['pre'] else None
         lensp = []
         others = P[1:] if inplace else P
-        for o in others: lensp.append('%s.len() == old(%s).len()' % (o, resp))
-        reqp = ['mods_wf(moduli@)', 'degree > 0', 'old(%s).len() == degree * moduli.len()' % resp] + lensp
-        if prp('i'): reqp.append('forall|i: int| 0 <= i < old(%s).len() ==> %s' % (resp, prp('i')))
+        for o in others: lensp.append('%s.len() >= degree * moduli.len()' % o)
+        reqp = ['mods_wf(moduli@)', 'degree > 0', 'old(%s).len() >= degree * moduli.len()' % resp] + lensp
+        if prp('i'): reqp.append('forall|i: int| 0 <= i < degree * moduli.len() ==> %s' % prp('i'))
         w('//@ extract fn src/util/polysmallmod.rs %s mode=absent slicemut=1' % fnp)
         w('//@ sig')
         w('    requires ' + ', '.join(reqp) + sc_req_p(qj) + ',')
         w('    ensures final(%s).len() == old(%s).len(),' % (resp, resp))
-        w('        forall|i: int| 0 <= i < old(%s).len() ==> (#[trigger] final(%s)[i]) as int == %s,' % (resp, resp, spp('i')))
-        invp = ['mods_wf(moduli@)', 'degree > 0', '%s.len() == degree * moduli.len()' % resp, '%s.len() == moduli.len() * degree' % resp, '%s.len() == old(%s).len()' % (resp, resp)] + [l.replace('old(%s)' % resp, resp) for l in lensp]
+        w('        forall|i: int| 0 <= i < degree * moduli.len() ==> (#[trigger] final(%s)[i]) as int == %s,' % (resp, spp('i')))
+        w('        forall|i: int| degree * moduli.len() <= i < old(%s).len() ==> (#[trigger] final(%s)[i]) == old(%s)[i],' % (resp, resp, resp))
+        invp = ['mods_wf(moduli@)', 'degree > 0', '%s.len() >= degree * moduli.len()' % resp, '%s.len() >= moduli.len() * degree' % resp, '%s.len() == old(%s).len()' % (resp, resp)] + lensp + [l.replace('degree * moduli.len()', 'moduli.len() * degree') for l in lensp]
         if sc == 'operand': invp.append('forall|j: int| 0 <= j < moduli@.len() ==> operand_wf(scalar, (#[trigger] moduli@[j]).v())')
         qjx = 'moduli@[x / (degree as int)].v()'
-        if prp('x'): invp.append('forall|x: int| 0 <= x < %s.len() ==> %s' % (resp, prp('x', qq=qjx)))
+        if prp('x'): invp.append('forall|x: int| 0 <= x < degree * moduli.len() ==> %s' % prp('x', qq=qjx))
         invp.append('(offset as int) == it.index@ * (degree as int)'); invp.append('i == it.index@')
         invp.append('forall|x: int| 0 <= x < offset ==> (#[trigger] %s[x]) as int == %s' % (resp, spp('x', qq=qjx)))
-        if inplace: invp.append('forall|x: int| offset <= x < %s.len() ==> %s[x] == old(%s)[x]' % (resp, resp, resp))
+        invp.append('forall|x: int| offset <= x < %s.len() ==> (#[trigger] %s[x]) == old(%s)[x]' % (resp, resp, resp))
         w('//@ start')
         w('    proof { assert(degree * moduli.len() == moduli.len() * degree) by(nonlinear_arith); }')
         w('//@ loopiter 1 it')
@@ -245,21 +246,22 @@ for name, f in FAM.items():
         def sps(idx, S=srcs2, qq=qk): return f['spec'].format(q=qq, **{('c%d' % i): '%s[%s]' % (nm, idx) for i, nm in enumerate(S)})
         def prs(idx, S=srcs2, qq=qk): return f['pre'].format(q=qq, **{('c%d' % i): ('(#[trigger] %s[%s])' if i == 0 else '%s[%s]') % (nm, idx) for i, nm in enumerate(S)}) if f['pre'] else None
         otherss = PS[1:] if inplace else PS
-        lenss = ['%s.len() == old(%s).len()' % (o, ress) for o in otherss]
-        reqs = ['mods_wf(moduli@)', 'degree > 0', 'moduli.len() > 0', 'degree * moduli.len() <= usize::MAX', 'old(%s).len() == pcount * (degree * moduli.len())' % ress] + lenss
-        if prs('i'): reqs.append('forall|i: int| 0 <= i < old(%s).len() ==> %s' % (ress, prs('i')))
+        lenss = ['%s.len() >= pcount * (degree * moduli.len())' % o for o in otherss]
+        reqs = ['mods_wf(moduli@)', 'degree > 0', 'moduli.len() > 0', 'degree * moduli.len() <= usize::MAX', 'old(%s).len() >= pcount * (degree * moduli.len())' % ress] + lenss
+        if prs('i'): reqs.append('forall|i: int| 0 <= i < pcount * (degree * moduli.len()) ==> %s' % prs('i'))
         w('//@ extract fn src/util/polysmallmod.rs %s mode=absent slicemut=1' % fnps)
         w('//@ sig')
         w('    requires ' + ', '.join(reqs) + sc_req_p(qk) + ',')
         w('    ensures final(%s).len() == old(%s).len(),' % (ress, ress))
-        w('        forall|i: int| 0 <= i < old(%s).len() ==> (#[trigger] final(%s)[i]) as int == %s,' % (ress, ress, sps('i')))
-        invs = ['mods_wf(moduli@)', 'degree > 0', 'moduli.len() > 0', 'd == degree * moduli.len()', '%s.len() == pcount * d' % ress, '%s.len() == old(%s).len()' % (ress, ress)] + [l.replace('old(%s)' % ress, ress) for l in lenss]
+        w('        forall|i: int| 0 <= i < pcount * (degree * moduli.len()) ==> (#[trigger] final(%s)[i]) as int == %s,' % (ress, sps('i')))
+        w('        forall|i: int| pcount * (degree * moduli.len()) <= i < old(%s).len() ==> (#[trigger] final(%s)[i]) == old(%s)[i],' % (ress, ress, ress))
+        invs = ['mods_wf(moduli@)', 'degree > 0', 'moduli.len() > 0', 'd == degree * moduli.len()', '%s.len() >= pcount * d' % ress, '%s.len() == old(%s).len()' % (ress, ress)] + [l.replace('(degree * moduli.len())', 'd') for l in lenss]
         if sc == 'operand': invs.append('forall|j: int| 0 <= j < moduli@.len() ==> operand_wf(scalar, (#[trigger] moduli@[j]).v())')
         qkx = 'moduli@[(x / (degree as int)) % (moduli@.len() as int)].v()'
-        if prs('x'): invs.append('forall|x: int| 0 <= x < %s.len() ==> %s' % (ress, prs('x', qq=qkx)))
+        if prs('x'): invs.append('forall|x: int| 0 <= x < pcount * d ==> %s' % prs('x', qq=qkx))
         invs.append('(offset as int) == it.index@ * (d as int)'); invs.append('i == it.index@')
         invs.append('forall|x: int| 0 <= x < offset ==> (#[trigger] %s[x]) as int == %s' % (ress, sps('x', qq=qkx)))
-        if inplace: invs.append('forall|x: int| offset <= x < %s.len() ==> %s[x] == old(%s)[x]' % (ress, ress, ress))
+        invs.append('forall|x: int| offset <= x < %s.len() ==> (#[trigger] %s[x]) == old(%s)[x]' % (ress, ress, ress))
         w('//@ loopiter 1 it')
         w('//@ loop 1')
         w('        invariant it.snapshot.end == pcount, ' + ', '.join(invs) + ',')
